@@ -111,18 +111,18 @@ def run_once(p, cfg, L=None, checkpoint=None, x0=None, callback_kind=None, extra
         kw["callback"] = cb
     counters = dict(ftarget=0, gtol=0)
     if kw.get("ftarget_callable") is not None:
-        v = kw.pop("ftarget_callable")
+        vft = kw.pop("ftarget_callable")
 
-        def ft():
+        def ft(_v=vft):
             counters["ftarget"] += 1
-            return v
+            return _v
         kw["ftarget"] = ft
     if kw.get("gtol_callable") is not None:
-        v = kw.pop("gtol_callable")
+        vgt = kw.pop("gtol_callable")
 
-        def gt():
+        def gt(_v=vgt):
             counters["gtol"] += 1
-            return v
+            return _v
         kw["gtol"] = gt
     if extra:
         kw.update(extra)
@@ -866,11 +866,22 @@ def fd_modes(c):
     bad = {}
     nruns = 0
     real_ad = sfm.approx_derivative
-    for name, p in problems().items():
+    probs = dict(problems())
+    # partly infinite boxes: the bounds must reach the differencing routine whatever their pattern
+    for base_name in ("qp2", "qp3"):
+        q = dict(probs[base_name])
+        b = np.array(q["bounds"], dtype=float)
+        b[0::2, 0] = -np.inf
+        b[1::2, 1] = np.inf
+        q["bounds"] = b
+        probs[base_name + "_onesided"] = q
+    for name, p in probs.items():
         if name.startswith("expdrop"):
             continue
         lb, ub = p["bounds"][:, 0], p["bounds"][:, 1]
-        for x0 in (p["x0"], lb.copy(), ub.copy(), np.where(np.arange(lb.size) % 2 == 0, lb, ub)):
+        starts = [p["x0"], np.where(np.isfinite(lb), lb, p["x0"]), np.where(np.isfinite(ub), ub, p["x0"]),
+                  np.where(np.arange(lb.size) % 2 == 0, np.where(np.isfinite(lb), lb, p["x0"]), np.where(np.isfinite(ub), ub, p["x0"]))]
+        for x0 in starts:
             L = Logged(p)
             seen = []
 
